@@ -52,7 +52,7 @@ def main():
                        'see DESIGN.md §3 for the planned Lean proof (no other technique is substituted)')})
     m = {
         'version': 1,
-        'setup_cmd': 'cd lean && lake build',
+        'setup_cmd': '/venv/bin/python harness/setup.py',
         'hooks': {'guard': 'POLYMATH_VERIF', 'enable': 'no hooks are needed: all observations use public attributes',
                   'baseline_off_cmd': 'cd /repo && /venv/bin/python -m pytest -ra -q -p no:cacheprovider --timeout=900 '
                                       '--continue-on-collection-errors',
